@@ -22,7 +22,7 @@ theorem atomB_consumes {P F : List Char → R E} (ctx : Ctx) (hP : Consumes P) (
   · rename_i r0 t0 hp; cases h; exact hP _ _ _ hp
   · cases h
   · split at h
-    · rename_i r0 t0 hl; cases h; exact lexDouble_length hl
+    · rename_i r0 t0 hl; cases h; exact parseConst_length hl
     · split at h
       · rename_i r0 t0 hf; cases h; exact hF _ _ _ hf
       · cases h
